@@ -168,11 +168,45 @@ theorem loadEnd_log (acl : Acl) (s : Store) (logs : List (OMap × OMap)) :
     (s.loadEnd acl logs).log = joinAll acl s.log logs := rfl
 
 /-- the cache after `replicationLoadComplete`: `_localHeads` untouched, `_remoteHeads` rewritten
-with all the heads of the merged log — unconditionally -/
+with all the heads of the merged log, followed by the cached remote heads the log has no entry for —
+unconditionally -/
 theorem loadEnd_heads (acl : Acl) (s : Store) (logs : List (OMap × OMap)) :
     (s.loadEnd acl logs).localHeads = s.localHeads ∧
-    (s.loadEnd acl logs).remoteHeads = some ((sortedHeads (s.loadEnd acl logs).log).map (·.hash)) :=
+    (s.loadEnd acl logs).remoteHeads = some ((sortedHeads (s.loadEnd acl logs).log).map (·.hash) ++
+      keptHeads s.remoteHeads (s.loadEnd acl logs).log) :=
   ⟨rfl, rfl⟩
+
+/-- **nothing the cache pointed to is forgotten**: every remote head cached before a
+`replicationLoadComplete` is cached after it, or the log now holds it (and then the new heads
+cover it, `loadEnd_covers`) — whatever the store had loaded, with whatever limit (finding F26) -/
+theorem loadEnd_keeps_cached (acl : Acl) (s : Store) (logs : List (OMap × OMap)) :
+    ∀ h ∈ s.remoteHeads.getD [], h ∈ (s.loadEnd acl logs).remoteHeads.getD [] ∨
+      has (s.loadEnd acl logs).log.entries h = true := by
+  intro h hh
+  rw [(loadEnd_heads acl s logs).2]
+  simp only [Option.getD_some, List.mem_append]
+  by_cases hl : has (s.loadEnd acl logs).log.entries h = true
+  · exact Or.inr hl
+  · left; right
+    simp only [keptHeads, List.mem_filter]
+    exact ⟨hh, by simpa using hl⟩
+
+/-- on a store whose log holds everything its cache points to (any store that loaded without a
+limit) the rule changes nothing: the heads written are the heads of the merged log -/
+theorem loadEnd_eq_loadEnd0 (acl : Acl) (s : Store) (logs : List (OMap × OMap))
+    (h : ∀ x ∈ s.remoteHeads.getD [], has s.log.entries x = true) :
+    s.loadEnd acl logs = s.loadEnd0 acl logs := by
+  have hk : keptHeads s.remoteHeads (s.loadEnd0 acl logs).log = [] := by
+    simp only [keptHeads, List.filter_eq_nil_iff]
+    intro x hx
+    obtain ⟨y, hy, hyx⟩ := (has_iff _ _).mp (h x hx)
+    have : has (joinAll acl s.log logs).entries x = true :=
+      (has_iff _ _).mpr ⟨y, joinAll_mono acl logs s.log y hy, hyx⟩
+    show ¬ ((!has (joinAll acl s.log logs).entries x) = true)
+    simp [this]
+  show ({ (s.loadEnd0 acl logs) with remoteHeads := some ((sortedHeads (s.loadEnd0 acl logs).log).map (·.hash) ++ keptHeads s.remoteHeads (s.loadEnd0 acl logs).log) } : Store) = s.loadEnd0 acl logs
+  rw [hk, List.append_nil]
+  rfl
 
 theorem loadEnd_good {acl : Acl} {U : List Entry} (hU : HashDet U) (hM : ClockMono U) {s : Store}
     {logs : List (OMap × OMap)} (hG : Good U s.log) (hB : BatchHonest U s.log.id logs) :
@@ -190,6 +224,6 @@ theorem loadEnd_covers {acl : Acl} {U : List Entry} (hU : HashDet U) (hM : Clock
   rw [(loadEnd_heads acl s logs).2]
   simp only [Option.getD_some]
   exact (sortedHeads_cover hM (loadEnd_good hU hM hG hB).1.inv).mono_heads
-    (fun x hx => List.mem_append_right _ hx)
+    (fun x hx => List.mem_append_right _ (List.mem_append_left _ hx))
 
 end Orbit
